@@ -695,3 +695,6 @@ def check(model, rep, tier):
             continue
         nf += forwarding_obligations(model, rep, fa, "2 argmax")
     rep.floor("FWD", 1, "(LoaderBase.align delegates hetero-template stacks to align_multi_templates)")
+    from .generic import with_params_forwarding_obligations
+    with_params_forwarding_obligations(model, rep, "4 rotation set", ("rotations",))
+    rep.floor("WPARAM", 2, "(with_params of the alignment model classes that name this option)")
